@@ -57,7 +57,7 @@ def check_follow(case, s, model_perms, ws, ts, fns, lag_allowed, what):
             require(got0.units == build.KG and relerr(got0.value, init) <= 1e-12,
                     "%s: permeances[0][%d] = %r, supplied initial permeance is %r kg/(m2 h kPa)", what, i, got0, init)
         f0 = f(ws[0], ts[0])
-        if not (math.isfinite(f0) and f0 > 0):
+        if not (math.isfinite(f0) and f0 > 1e-30):  # (a fit that returns ~1e-83 for data of order 1e-3 is degenerate as well)
             raise Discard("fitted function is not positive at the initial state (degenerate fit, no constant factor defined)")
         fr = 1.0 if init is None else init / f0
         options = [("same-step", lambda k: ws[k])]
